@@ -1,25 +1,57 @@
 """Generators shared by the helper-level slices (C03, C04, C10) and family-restricted
 instruction-level slices."""
+import os
 import corr
 from checks import c01
 
 
+_POOL = None
+
+
+def acc_pool():
+    """Arithmetic boundary values of a 40-bit accumulator, plus every wide hex literal that occurs in the
+    interpreter source under test (+-1): constants the code compares against are where a changed
+    boundary shows."""
+    global _POOL
+    if _POOL is None:
+        import re
+        import vlib
+        vals = [0, 1, -1, 0x7FFFFFFF, -2**31, 2**31, -2**31 - 1, 2**39 - 1, -2**39, -2**39 + 1, 0x8000, 0xFFFF,
+                0x10000, 0x7FFF8000, 2**38, -2**38 - 1]
+        try:
+            src = open(os.path.join(vlib.REPO, "src", "interpreter.h")).read()
+            for lit in set(re.findall(r"0x[0-9A-Fa-f']+", src)):
+                v = int(lit.replace("'", ""), 16)
+                if v > 0xFFFF:
+                    if v >= 2**63:
+                        v -= 2**64
+                    vals += [v, v - 1, v + 1]
+        except OSError:
+            pass
+        out = []
+        for v in vals:
+            v &= 0xFFFFFFFFFF
+            if v & 0x8000000000:
+                v |= 0xFFFFFF0000000000
+            if v not in out:
+                out.append(v)
+        _POOL = out
+    return _POOL
+
+
 def acc(rng):
-    """64-bit accumulator pattern: mostly well-formed (sign-extended from 40), in the shapes of the
-    project's own bit40() generator, sometimes arbitrary."""
+    """64-bit accumulator pattern: half from the boundary pool, otherwise in the shapes of the project's
+    own bit40() generator (mostly well-formed, i.e. sign-extended from 40), sometimes arbitrary."""
     m = rng.below(10)
-    if m == 0:
-        v = rng.choice([0, 1, 0x7FFFFFFF, 0x80000000, 0xFFFFFFFF, 0x7FFFFFFFFF, 0x8000000000, 0xFFFFFFFFFF,
-                        0x7FFF8000, 0xFFFF, 0x10000, 0x8000, 0x7FFFFFFE, 0x80000001])
-    elif m == 1:
-        v = (1 << rng.below(40))
-    elif m == 2:
-        v = ((1 << rng.below(41)) - 1)
-    elif m < 5:
+    if m <= 4:
+        return rng.choice(acc_pool())
+    if m == 5:
+        v = (1 << rng.below(40)) if rng.chance(1, 2) else ((1 << rng.below(41)) - 1)
+    elif m < 8:
         v = rng.bits(32)
         if v & 0x80000000:
             v |= 0xFF00000000
-    elif m < 9:
+    elif m < 9 or rng.chance(1, 2):
         v = rng.bits(40)
     else:
         return rng.bits(64)          # not well-formed
@@ -36,6 +68,10 @@ def family_scripts(rng, prefixes, nstates):
     info = gen_dispatch.main(vlib.REPO, vlib.LEAN)
     missing = set(info["missing"])
     keys = c01.opcode_keys()
+    per_key = {}
+    for kx in keys:
+        if kx is not None:
+            per_key[kx[0]] = per_key.get(kx[0], 0) + 1
     scripts = []
     for w in range(65536):
         if keys[w] is None:
@@ -45,6 +81,14 @@ def family_scripts(rng, prefixes, nstates):
             continue
         for _ in range(nstates):
             scripts.append(["interp gen %x" % rng.bits(40), "interp step %x %x" % (w, rng.biased(16))])
+        # the same opcode with the accumulators / products / factors at arithmetic boundary values;
+        # small families get more cases per opcode (at least ~2000 per handler)
+        for _ in range(max(1, nstates // 2, -(-2000 // per_key.get(k, 1)) if per_key.get(k, 1) < 2000 else 1)):
+            pokes = ["interp poke %s %x" % (f, acc(rng)) for f in ("a0", "a1", "b0", "b1")]
+            pokes += ["interp poke %s %x" % (f, rng.biased(32)) for f in ("p0", "p1") if rng.chance(1, 2)]
+            pokes += ["interp poke %s %x" % (f, rng.biased(16)) for f in ("x0", "y0", "x1", "y1", "sv") if rng.chance(1, 2)]
+            pokes += ["interp poke sata %x" % rng.below(2), "interp poke sat %x" % rng.below(2)]
+            scripts.append(["interp gen %x" % rng.bits(40)] + pokes + ["interp step %x %x" % (w, rng.biased(16))])
     return scripts, keys, [k for k in missing if any(k.startswith(p) for p in prefixes)]
 
 
